@@ -12,7 +12,7 @@
 From Coq Require Import List Bool Arith.
 From SV Require Import SM.AtomicWriter SM.AtomicWriterProofs SM.AtomicWriterThms SM.AtomicExit SM.AtomicExitProofs
   SM.AtomicOpenLoopProofs SM.AtomicSameDestProofs SM.AtomicReuse SM.AtomicReuseProofs SM.AtomicRetry
-  SM.AtomicRetryProofs.
+  SM.AtomicRetryProofs SM.AtomicProduct SM.AtomicProductProofs.
 Import ListNotations.
 
 (** Old or new, never a mixture; new exactly when the replace has succeeded — at every point of every execution,
@@ -502,3 +502,39 @@ Theorem c12_entry_prologue_keyed_on_stale_name_refuted :
   exec prologue_stale_name None (env_of (o_attrs obj_fixed) [Some VNone; Some VTName; Some VDest] false) inert_k
     = XUnlink (XDone false) (XDone true) (XDone false).
 Proof. exact entry_prologue_examples. Qed.
+
+(** * Reuse histories of one writer interleaved with a concurrent writer (SM/AtomicProduct.v)
+
+    Writer A is one object used for a history [h] of [with] blocks to the destination [k1] (each segment = the scenario of
+    the use + a schedule interleaving it with B; after a finished use that left no temp file A starts again at mkdir:
+    obligations [reuse_entry_touches_nothing_before_creating_its_temp_file] and
+    [reuse_exit_protocol_independent_of_earlier_uses]); writer B is a single use of another file, in flight across A's
+    uses.  For every history, every schedule of every segment (= every kill point, fault pattern and interleaving):
+    B's destination is old or B's complete new content; A and B never hold the same temp name; the temp file B holds did
+    not exist before, exists, and holds exactly what B has written so far — no re-entry of A removes or rewrites it
+    (what seeded c12_5 breaks); nothing else in the directory changes.  Proof: the round-1 invariant, re-based at A's
+    destination, survives the restart of A. *)
+Theorem c12_product_isolated : forall x d0 k1 s2 h, proto_safe x = true -> k1 <> dest s2 -> h <> [] ->
+  (forall u, In u h -> dest (fst u) = k1) ->
+  let st := prunt x s2 h (startt d0) in
+  sdt st (File (dest s2)) = (if committedt (q2 st) then Some (new s2) else d0 (File (dest s2))) /\
+  (forall i, assoct (q1 st) = Some i -> assoct (q2 st) = Some i -> False) /\
+  (forall i, assoct (q2 st) = Some i -> d0 (Tmp i) = None /\ exists ct, sdt st (Tmp i) = Some ct /\ progresst s2 (q2 st) ct) /\
+  (forall n, n <> File k1 -> n <> File (dest s2) ->
+     (forall i, n = Tmp i -> assoct (q1 st) <> Some i /\ assoct (q2 st) <> Some i) -> sdt st n = d0 n).
+Proof. exact proto_product_isolated. Qed.
+
+(** Not vacuous: A succeeds, B opens tmp_1 and writes, A is entered again while B is open (tmp_1 and the stale tmp_2
+    are taken: it uses tmp_3) and completes, B completes. *)
+Theorem c12_product_example :
+  let x := proto_of_cfg cfg_fixed in
+  let sA := {| dest := 0; body := [1]; tail := []; raise_at := None |} in
+  let sA2 := {| dest := 0; body := [2; 3]; tail := []; raise_at := None |} in
+  let sB := {| dest := 1; body := [7; 8]; tail := []; raise_at := None |} in
+  let h := [(sA, repeat (false, false) 5 ++ repeat (true, false) 3);
+            (sA2, repeat (false, false) 8 ++ repeat (true, false) 3)] in
+  let st := prunt x sB h (startt d_old) in
+  committedt (q1 st) = true /\ committedt (q2 st) = true /\
+  sdt st (File 0) = Some [2; 3] /\ sdt st (File 1) = Some [7; 8] /\ sdt st (Tmp 1) = None /\ sdt st (Tmp 2) = Some [777] /\
+  In (false, (EOpen 1, RExist)) (trt st).
+Proof. exact product_example. Qed.
